@@ -89,6 +89,18 @@ func (r R) Datagram(op *rm.Op, serial uint32, args rm.Vals, c Class, marker uint
 			rm.EncodeField(msg, *l.Field("To"), rm.DateVal(2024, 12, 31))
 		case "GetTimeProfile":
 			rm.EncodeField(msg, *l.Field("ProfileID"), rm.UVal(rm.U8, args["ProfileID"].U))
+			// segment times: some real ones, some out of domain (reported as 00:00 - never as anything another reply carried)
+			for _, f := range l.Fields {
+				if f.Kind != rm.HHmm {
+					continue
+				}
+				switch r.Pick(3) {
+				case 1:
+					copy(msg[f.Offset:], []byte{byte(0x10*r.Pick(2) + r.Pick(10)), byte(0x10*r.Pick(6) + r.Pick(10))})
+				case 2:
+					copy(msg[f.Offset:], [][]byte{{0xff, 0xff}, {0x25, 0x00}, {0x12, 0x60}, {0x1a, 0x30}}[r.Pick(4)])
+				}
+			}
 		case "GetEvent":
 			rm.EncodeField(msg, *l.Field("Index"), rm.UVal(rm.U32, 17))
 			rm.EncodeField(msg, *l.Field("Type"), rm.UVal(rm.U8, 1))
